@@ -378,7 +378,9 @@ def scheduled(prog: Program, rep: Report):
     stores = [m for m, var, val in fa.stores() if var.endswith(".sample_counter")]
     ok = len(incs) == 1 and len(stores) == 1 and incs[0][1] is ast.Add and \
         term_to_poly(fa.sym.term(incs[0][2], incs[0][0])).const_value() == 1 and \
-        fa.conds_at(incs[0][0]) == fa.conds_at(n) and cfg.reachable(n, incs[0][0])
+        fa.conds_at(incs[0][0]) == fa.conds_at(n) and (cfg.reachable(n, incs[0][0]) or (
+            # ... or the index was computed from the counter as it was before the increment (a hoisted temporary)
+            len(fl) == 1 and (fl[0][2] == sc or (fl[0][2][0] == "var" and incs[0][0] not in fl[0][2][2]))))
     rep.decide(ok, "G6.schedule-index", fi, "counter", "sample_counter += 1 once per scheduled call, after the index was computed",
                "the sample counter is not incremented by exactly 1 per scheduled call after the batch index was computed",
                line=fa.line(incs[0][0]) if incs else fi.node.lineno, clause="C15.5")
@@ -431,6 +433,20 @@ def scheduled(prog: Program, rep: Report):
                         cands.append(a)
                 ok = bool(cands) and all(c[0] == "binop" and c[1] == "//" and not any(x == ep for x in leaves(c)) for c in cands)
                 why = "epochs * (per-epoch floor / ceiling division)" if ok else why
+                if ok and len(cands) >= 2:
+                    # sibling arms (drop_last / not): floor and ceiling of one and the same per-rank length
+                    bases = set()
+                    for c in cands:
+                        num, den = term_to_poly(c[2]), term_to_poly(c[3])
+                        ceil_form = num - den + Poly.const(1)
+                        bases.add(repr(ceil_form) if (num - den).const_value() is None and den in [Poly.atom(a) for a in num.atoms()]
+                                  and num.coeff_of(list(den.atoms())[0]).const_value() == 1 and (num - den + Poly.const(1)).degree_in(
+                                      list(den.atoms())[0]) == 0 else repr(num))
+                    if len(bases) > 1:
+                        ok = False
+                        why = ("the drop_last and the non-drop_last arm count the batches of different lengths (" + " vs ".join(
+                            sorted(bases)) + "): one of them is not the per-rank share of the dataset, so the schedule is too long "
+                            "or too short by the world size in that mode")
             else:
                 fl = [a for a in p.atoms() if a[0] == "binop" and a[1] == "//" and ep in leaves(a)]
                 if fl:
